@@ -70,8 +70,9 @@ def sh(cmd, timeout, cwd=None, env=None, stdin=None, stdout_path=None):
 
 def run_translator(ctx, which):
     """Regenerate coq/gen/*.v from /repo's working tree (only files whose content changed are rewritten)."""
-    if not which:
-        return True
+    # ALL tables are regenerated on every run, whatever the property: a stale coq/gen file left by a run on a different tree
+    # would otherwise poison the Coq build of every property whose cone contains it (only changed files are rewritten; ~1 s)
+    which = ["all"]
     with flock(ctx, "coq"):
         rc, out = sh([sys.executable, os.path.join(ctx.root, "translator", "rs2v.py"), REPO,
                       os.path.join(ctx.root, "coq", "gen")] + list(which), 600)
